@@ -610,18 +610,29 @@ def r6(ctx, prog, fit, wrapper, dfun_call):
               "of the wrapper" % sorted(set(keys) - set(wp[1:])), node=call)
     # order inside the wrapper: /= errs, .dot(B), transpose
     ops = []
+    from ..core import as_update
+
+    def is_transpose(v):
+        if isinstance(v, ast.Attribute) and v.attr == "T":
+            return True
+        if isinstance(v, ast.Call):
+            t_ = norm(v.func)
+            return t_ in ("np.transpose", "numpy.transpose") or \
+                t_.endswith(".transpose")
+        return False
     for s in walk_no_nested(wrapper.node):
-        if isinstance(s, ast.AugAssign) and isinstance(s.op, ast.Div) and \
-                norm(s.value) == "errs":
+        u = as_update(s) if isinstance(s, (ast.Assign, ast.AugAssign)) \
+            else None
+        if u is not None and u[1] is ast.Div and u[2] == "errs":
             ops.append((s.lineno, "div_errs"))
-        if isinstance(s, ast.Assign) and isinstance(s.value, ast.Call):
-            t = norm(s.value.func)
-            if t.endswith(".dot") and s.value.args and \
-                    norm(s.value.args[0]) == "B":
+        val = s.value if isinstance(s, (ast.Assign, ast.Return)) else None
+        if isinstance(val, ast.Call):
+            t = norm(val.func)
+            if t.endswith(".dot") and val.args and \
+                    norm(val.args[0]) == "B":
                 ops.append((s.lineno, "dot_B"))
-            if t in ("np.transpose", "numpy.transpose") or \
-                    t.endswith(".transpose"):
-                ops.append((s.lineno, "transpose"))
+        if val is not None and is_transpose(val):
+            ops.append((s.lineno, "transpose"))
     seq = [o for _, o in sorted(ops)]
     ctx.check("C04-R6", wrapper, "whitening sequence %s" % seq,
               seq == ["div_errs", "dot_B", "transpose"],
